@@ -309,6 +309,7 @@ func Gen(seed uint64, tier string) any {
 				ft.At = r.IntN(size + 1)
 			}
 			ft.Wrap = core.Chance(r, 20)
+			ft.Temp = !ft.Wrap && core.Chance(r, 15)
 			if core.Chance(r, 25) {
 				// a transient error: the read fails once, a retry would have succeeded
 				ft.Once = true
@@ -581,7 +582,7 @@ func parse(sc *Scenario, faults []simfs.Fault, short int) (o *outcome) {
 func hardFaults(f *simfs.FS) int {
 	n := 0
 	for k, v := range f.Fired {
-		if k != "short_read" && k != "open_missing" && k != "read_error_wrapping_eof" {
+		if k != "short_read" && k != "open_missing" && k != "read_error_wrapping_eof" && k != "read_error_temporary" {
 			n += v
 		}
 	}
@@ -864,7 +865,7 @@ func faultyRun(sc *Scenario, res *core.Result, ref *outcome, logf func(string, .
 	fired := 0
 	for k, v := range run.fs.Fired {
 		res.Add("fault."+k, v)
-		if k != "short_read" && k != "open_missing" && k != "read_error_wrapping_eof" {
+		if k != "short_read" && k != "open_missing" && k != "read_error_wrapping_eof" && k != "read_error_temporary" {
 			fired += v
 		}
 	}
